@@ -165,8 +165,11 @@ def _model_for(lut_data):
     if isinstance(lut_data, tuple) and len(lut_data) == 2:
         arr, meta = lut_data
         arr = np.asarray(arr)
-        if arr.dtype != np.float64 or arr.ndim != 2 or arr.shape[1] != 3:
+        if arr.dtype.kind != "f" or arr.dtype.itemsize != 8 or arr.ndim != 2 \
+                or arr.shape[1] != 3:
             raise M.Undefined("LUT array is not float64 (N, 3)")
+        # (either byte order: the same values)
+        arr = np.ascontiguousarray(arr, dtype=np.float64)
         key = _digest(arr.tobytes(), json.dumps(meta, sort_keys=True, default=repr))
         if key not in _State.models:
             _State.models[key] = M.LutRef(arr, meta)
@@ -769,7 +772,17 @@ def build_lut(ctx, rng, idx, force_area=False):
             "lut_nodes": int(len(data)), "lut_L0": meta["channel_width"],
             "lut_Q0": meta["flow_rate"], "lut_eta0": meta["fluid_viscosity"]}
     if route == "tuple":
-        arg = (data.copy(), meta_full)
+        arr = data.copy()
+        q = rng.random()
+        if q < 0.2:
+            arr = arr.astype(">f8")                 # same values, non-native byte order
+            desc["lut_array"] = "big-endian float64"
+        elif q < 0.3:
+            arr = np.asfortranarray(arr)
+            desc["lut_array"] = "Fortran order"
+        if "lut_array" in desc:
+            ctx.count(f"lut_tuple_array[{desc['lut_array']}]")
+        arg = (arr, meta_full)
         if rng.random() < 0.3:
             arg[0].flags.writeable = False
     else:
